@@ -13,6 +13,7 @@ RULE = ('cases = {GULP, excel} x pair-model space of C01 (potentials regular at 
         'models (ordered element subsets, every subset of pair / dipole / quadrupole pairs with orientations, grids) x 3 routes; '
         'excel_eam / excel_eam_fs x EAM / FS models x routes; writeFuncFL x 1-element models x grids; every case executed; '
         'non-trivial = every case with >= 2 rows and >= 1 non-zero function')
+RULE += '; pair space extensions of C01 (objects only for GULP; numpy 0-d returning callables also in the workbooks); ADP: density-only species with dipoles, dipole / quadrupole lists whose functions all involve species outside the file, label / foreign-pair models; funcfl with attractive pair potentials (refused or faithful)'
 ASSUMPTIONS = [
     'GULP: "spline cubic" / "A B cutoff" / nr rows "energy separation"; ADP: setfl followed by u then w blocks for (i, j<=i), unscaled',
     'funcfl: Z(r) column squared * 27.2 * 0.529 / r is the pair potential (conversion constants as documented in the writer)',
